@@ -1,6 +1,6 @@
 (* C02 correspondence cases: store histories (Model/ContStore.v, case02) and byte-level appends
    (Model/LogBytes.v) in one case type, so one harness run writes one family of case files. *)
-From RipV Require Import Base.Prelude Model.Frames Model.Log Model.ContStore Model.LogBytes Model.NoopPlan Model.C02Decide.
+From RipV Require Import Base.Prelude Model.Frames Model.Log Model.ContStore Model.LogBytes Model.NoopPlan Model.C02Decide Model.LogFile.
 
 (* one EventLog::append of a frame whose line (frame + newline) has cb_len bytes, on a writer with an
    empty buffer: by how many bytes has the FILE grown at the hook point log.body_written (after the
@@ -127,7 +127,8 @@ Inductive case02x :=
 | CStore2 (c : case02b)
 | CBytes (c : case_bytes)
 | CPlan (c : case_plan)       (* what one auto / auto-schedule call planned vs the planner of Model/NoopPlan.v *)
-| CDecide (c : case03).       (* histories in which ensure_default and provider-cursor-rotate are decided by the model *)
+| CDecide (c : case03)        (* histories in which ensure_default and provider-cursor-rotate are decided by the model *)
+| CLogFile (c : case_logfile). (* events.jsonl across restarts: opens, reads, torn tails, appends (Model/LogFile.v) *)
 
 (* zl: does the source count a zero-byte checkpoint sidecar as absent (Model/NoopPlan.v `seen`); the case
    files use check_case_c02g / model_obs_c02g of Gen/Effects.v, which pass the value read off the source *)
@@ -138,6 +139,7 @@ Definition model_obs_c02x_zl (zl : bool) (c : case02x) : list N :=
   | CBytes b => model_obs_bytes b
   | CPlan c => model_obs_plan zl c
   | CDecide c => model_obs_c03 c
+  | CLogFile c => model_obs_logfile c
   end.
 Definition check_case_c02x_zl (zl : bool) (c : case02x) : bool :=
   match c with
@@ -146,6 +148,7 @@ Definition check_case_c02x_zl (zl : bool) (c : case02x) : bool :=
   | CBytes b => lN_eqb (model_obs_bytes b) (cb_expect b)
   | CPlan c => check_case_plan zl c
   | CDecide c => lN_eqb (model_obs_c03 c) (c3_expect c)
+  | CLogFile c => lN_eqb (model_obs_logfile c) (lf_expect c)
   end.
 Definition model_obs_c02x := model_obs_c02x_zl false.
 Definition check_case_c02x := check_case_c02x_zl false.
